@@ -112,7 +112,23 @@ ActiveK == {Known.findings[jj].id : jj \in {jj \in 1..Len(Known.findings) : Know
 KC20_1(o, f) == /\ o.type = "badfile" /\ o.cls = "json-nonobject"
                 /\ f.clause = "UnreadableFileStartsEmpty"
                 /\ o.out.kind = "opened" /\ ~o.out.usable
-KF(o, f) == IF "KC20-1" \in ActiveK /\ KC20_1(o, f) THEN "KC20-1" ELSE ""
+(* KC20-2: stop() of one store publishes "exit" on the invalidation channel, which every   *)
+(* other client's tracker subscription receives; its handler takes the text for a list of *)
+(* keys and raises.  Root cause case: the message handed to client c is that "exit" (the  *)
+(* head of what was in flight to c before the operation); recorded behaviour: the         *)
+(* delivery raises AttributeError                                                          *)
+ExitMessage == "exit"
+KC20_2(o, f) == /\ o.type = "path" /\ f.op = "DeliverInvalidation" /\ f.step >= 2
+                /\ f.clause = "StoreRefinesMapping:unexpected-exception"
+                /\ LET op == o.ops[f.step]
+                       before == o.ops[f.step - 1].pend[op.c]
+                   IN /\ op.out.cls = "AttributeError"
+                      /\ before # <<>> /\ before[1] = ExitMessage
+KF(o, f) == IF "KC20-1" \in ActiveK /\ KC20_1(o, f) THEN "KC20-1"
+            ELSE IF "KC20-2" \in ActiveK /\ KC20_2(o, f) THEN "KC20-2"
+            ELSE ""
+(* once such a foreign message is in a client's queue the queues are not comparable with the model's *)
+Polluted(P, op) == \E c \in ClientsOf(P) : ExitMessage \in SeqToSet(op.pend[c])
 
 (* One TLC step per operation of a path (and one per case of the other types): the model     *)
 (* state s, the client's previous cached reads `last` and the invalidations in flight `pend`   *)
@@ -139,10 +155,10 @@ Next ==
                 t == Step(P, s, op)
                 vs == JudgeOp(P, s, t, op, last, pend)
                 bad == SelectSeq(vs, LAMBDA x : x # "ok")
-                d == Drifts(P, t, op) = 1 /\ ~dr
+                d == Drifts(P, t, op) = 1 /\ ~dr /\ ~Polluted(P, op)
                 new == [n \in 1..Len(bad) |-> Mk(o, [id |-> o.id, step |-> oi, clause |-> bad[n], op |-> op.op])]
                        \o (IF d THEN <<Mk(o, [id |-> o.id, step |-> oi, clause |-> "drift", op |-> op.op])>> ELSE <<>>)
-            IN /\ i' = i /\ oi' = oi + 1 /\ s' = t /\ pend' = op.pend /\ dr' = (dr \/ d)
+            IN /\ i' = i /\ oi' = oi + 1 /\ s' = t /\ pend' = op.pend /\ dr' = (dr \/ d \/ Polluted(P, op))
                /\ viol' = viol \o new
                /\ last' = IF op.op = "CachedGet" /\ HasCache(P) /\ op.out.kind = "value"
                           THEN [last EXCEPT ![op.c][op.k] = [set |-> TRUE, v |-> op.out.val]]
